@@ -189,6 +189,19 @@ static inline struct wb_thread wb_thread_none(void) { struct wb_thread t = { 0, 
 static inline struct wb_thread wb_thread_launch(size_t a, size_t b) { struct wb_thread t = { 1, a, b }; WB_LAUNCH(a, b); return t; }
 static inline void wb_thread_join(struct wb_thread *t) { WB_ASSERT(t->joinable, "join of a joinable thread"); WB_JOIN(t); t->joinable = 0; }
 
+/* difference of two iterators of one container (element pointers).  CBMC's signed-overflow check flags a negative
+ * difference of two pointers into the same object (measured: &data[2] - &data[3]); the difference is therefore taken on
+ * the offsets, with the same-object condition as an obligation */
+#ifdef WB_NATIVE
+#define WB_PTRDIFF(a, b) ((a) - (b))
+#else
+#define WB_PTRDIFF(a, b) ((void)__CPROVER_assert(__CPROVER_same_object((a), (b)), "iterator difference within one container"), \
+                          ((long)__CPROVER_POINTER_OFFSET(a) - (long)__CPROVER_POINTER_OFFSET(b)) / (long)sizeof(*(a)))
+#endif
+/* std::upper_bound over doubles: position k in [0,n] with !(v < d[k-1]) (k > 0) and v < d[k] (k < n) - what the
+ * binary search returns on any input; a contract stub (the units give its contract), never a loop */
+size_t wb_upper_bound_idx(const double *d, size_t n, double v);
+
 /* ---- std::mt19937 and distributions: opaque state ---- */
 struct wb_mt19937 { unsigned long state; };
 /* engine.seed(s): the state becomes a function of s alone (ghost event WB_SEEDED for contracts) */
